@@ -308,6 +308,30 @@ func fileKeys() []fileKey {
 			must(k.Set(jwk.KeyUsageKey, jwk.ForEncryption))
 			add(k, true)
 		}
+		// ... and other optional members of RFC 7517 that the rule does not mention: key_ops (of any
+		// content), a certificate thumbprint, a private parameter
+		for i, p := range keys.Pool() {
+			if p.PrivSet == nil {
+				continue
+			}
+			set := p.PubSet
+			if i%2 == 1 {
+				set = p.PrivSet
+			}
+			for j, ops := range []jwk.KeyOperationList{{jwk.KeyOpEncrypt}, {jwk.KeyOpWrapKey, jwk.KeyOpUnwrapKey}, {jwk.KeyOpSign}, {jwk.KeyOpVerify, jwk.KeyOpDecrypt}, {jwk.KeyOpDeriveBits}} {
+				if (i+j)%2 == 1 {
+					continue
+				}
+				k, _ := set.Key(0)
+				k, _ = k.Clone()
+				must(k.Set(jwk.KeyIDKey, fmt.Sprintf("keyops-%d-%d", i, j)))
+				must(k.Set(jwk.KeyOpsKey, ops))
+				if j%2 == 0 {
+					must(k.Set("x-note", "private parameter"))
+				}
+				add(k, true)
+			}
+		}
 		// valid keys published without a `kid` (a key set exported without ids)
 		for i, p := range keys.Pool() {
 			if p.PrivSet == nil || i%2 == 0 {
